@@ -2143,6 +2143,17 @@ impl<T: PPGEvaluatorStrategy> PPGEvaluator<T> {
     }
 
     fn propagate_job_required(dag: &mut GraphType, jobs: &mut [NodeInfo], node_idx: NodeIndex) {
+        // every ephemeral above is passed through once, not once per path leading to it
+        let mut passed_through = HashSet::new();
+        Self::propagate_job_required_inner(dag, jobs, node_idx, &mut passed_through);
+    }
+
+    fn propagate_job_required_inner(
+        dag: &mut GraphType,
+        jobs: &mut [NodeInfo],
+        node_idx: NodeIndex,
+        passed_through: &mut HashSet<NodeIndex>,
+    ) {
         let upstreams: Vec<_> = dag
             .neighbors_directed(node_idx, Direction::Incoming)
             .collect();
@@ -2152,7 +2163,11 @@ impl<T: PPGEvaluatorStrategy> PPGEvaluator<T> {
                 .required = Required::Yes;
             match jobs[upstream_idx].state {
                 JobState::Always(_) | JobState::Output(_) => {}
-                JobState::Ephemeral(_) => Self::propagate_job_required(dag, jobs, upstream_idx),
+                JobState::Ephemeral(_) => {
+                    if passed_through.insert(upstream_idx) {
+                        Self::propagate_job_required_inner(dag, jobs, upstream_idx, passed_through)
+                    }
+                }
             }
         }
     }
@@ -2441,6 +2456,20 @@ impl<T: PPGEvaluatorStrategy> PPGEvaluator<T> {
 
         node_idx: NodeIndex,
     ) -> Result<Required, PPGEvaluatorError> {
+        // the answer for a validated ephemeral further down is the same on whichever path
+        // it is reached: ask once per job, not once per path (layers of ephemerals that
+        // each depend on the whole previous layer have exponentially many paths).
+        let mut known = HashMap::new();
+        Self::downstream_requirement_status_inner(dag, jobs, node_idx, &mut known)
+    }
+
+    fn downstream_requirement_status_inner(
+        dag: &GraphType,
+        jobs: &[NodeInfo],
+
+        node_idx: NodeIndex,
+        known: &mut HashMap<NodeIndex, Required>,
+    ) -> Result<Required, PPGEvaluatorError> {
         let downstreams = dag.neighbors_directed(node_idx, Direction::Outgoing);
         let mut had_unknown = false;
         for downstream_idx in downstreams {
@@ -2461,7 +2490,20 @@ impl<T: PPGEvaluatorStrategy> PPGEvaluator<T> {
                     )) => {
                         // a validated ephemeral is exactly as required as its own downstreams
                         // make it - and those may not have decided yet.
-                        match Self::downstream_requirement_status(dag, jobs, downstream_idx)? {
+                        let below = match known.get(&downstream_idx) {
+                            Some(below) => *below,
+                            None => {
+                                let below = Self::downstream_requirement_status_inner(
+                                    dag,
+                                    jobs,
+                                    downstream_idx,
+                                    known,
+                                )?;
+                                known.insert(downstream_idx, below);
+                                below
+                            }
+                        };
+                        match below {
                             Required::Yes => return Ok(Required::Yes),
                             Required::Unknown => had_unknown = true,
                             Required::No => {}
@@ -2533,6 +2575,27 @@ impl<T: PPGEvaluatorStrategy> PPGEvaluator<T> {
         new_signals: &mut Vec<Signal>,
         gen: &Generation,
     ) {
+        // look through each waiting ephemeral once, not once per path leading to it
+        // (a second visit could not add a signal anyway, reconsider_job! de-duplicates)
+        let mut looked_through = HashSet::new();
+        Self::reconsider_delayed_upstreams_inner(
+            dag,
+            jobs,
+            node_idx,
+            new_signals,
+            gen,
+            &mut looked_through,
+        );
+    }
+
+    fn reconsider_delayed_upstreams_inner(
+        dag: &GraphType,
+        jobs: &mut [NodeInfo],
+        node_idx: NodeIndex,
+        new_signals: &mut Vec<Signal>,
+        gen: &Generation,
+        looked_through: &mut HashSet<NodeIndex>,
+    ) {
         let upstreams = dag.neighbors_directed(node_idx, Direction::Incoming);
         for upstream_idx in upstreams {
             match jobs[upstream_idx as usize].state {
@@ -2541,13 +2604,16 @@ impl<T: PPGEvaluatorStrategy> PPGEvaluator<T> {
                 JobState::Ephemeral(state) => match state {
                     JobStateEphemeral::NotReady(_) => {
                         //new_signals.push(NewSignal!(SignalKind::ConsiderJob,upstream_idx, jobs));
-                        Self::reconsider_delayed_upstreams(
-                            dag,
-                            jobs,
-                            upstream_idx,
-                            new_signals,
-                            gen,
-                        );
+                        if looked_through.insert(upstream_idx) {
+                            Self::reconsider_delayed_upstreams_inner(
+                                dag,
+                                jobs,
+                                upstream_idx,
+                                new_signals,
+                                gen,
+                                looked_through,
+                            );
+                        }
                     }
                     JobStateEphemeral::ReadyButDelayed => {
                         reconsider_job!(jobs, upstream_idx, new_signals, gen.get());
